@@ -21,6 +21,8 @@ for d in sorted(glob.glob(os.path.join(ROOT, "seeded", "C[0-9]*_*"))):
     if n in extra:
         detail += "; " + extra[n]
     first = "reported" if r.get("first_run_detected", True) else "missed"
+    if r.get("first_run_note"):
+        first = "reported, no failing input"
     print(f"| {n} | {m['property']} | {' '.join(m['summary'].replace('|', '/').split())} | {' '.join(m.get('manifests_when', '').replace('|', '/').split())[:220]} | {first} | {verdict} | {detail} |")
 
 
